@@ -1,6 +1,9 @@
 package main
 
 import (
+	"sync"
+
+	kv "github.com/XiXi-2024/xixi-kv"
 	"verifharness/h"
 )
 
@@ -26,6 +29,9 @@ func profMergeCrash(en *Env) {
 		cfg.Sync = "no"
 		cfg.BPS = 0
 		mergeCrashTrace(en, cfg, stats)
+	}
+	for t := 0; t < 2*en.Scale; t++ {
+		halfBatchTrace(en, h.IndexTypes[t%3], stats)
 	}
 	en.Summary["traces"] = traces
 	en.Summary["stats"] = stats
@@ -104,5 +110,82 @@ func mergeCrashTrace(en *Env, cfg h.Cfg, stats map[string]int) {
 	}
 	c.Stop()
 	obs := c.ExploreMerge(en.Thorough(), stats)
+	c.Flush(obs)
+}
+
+// halfBatchTrace: a Merge runs in the background (parked by a blocking hook right after it released the
+// database lock) while a batch larger than DataFileSize flushes an intermediate piece (deleting / overwriting
+// keys the merge is about to scan) and stays uncommitted; the merge then scans and finishes; the process
+// "dies" before Commit. The image must recover the mapping acknowledged before the batch.
+func halfBatchTrace(en *Env, index string, stats map[string]int) {
+	r := en.R
+	cfg := h.Cfg{Index: index, Shards: 4, IO: "std", Limit: 600, Sync: "no"}
+	nkeys := 4
+	dir := en.FreshDir()
+	defer en.Drop(dir)
+	u := h.SimpleKeys(nkeys, 6)
+	vs := h.NewValues()
+	e := h.NewEng(dir, en.Work+"/scratch", cfg, u, vs, en.T)
+	en.T.Emit(h.Ev{"ev": "reset", "n": nkeys, "seed": en.Seed, "prof": "halfbatch", "cfg": cfg.Ev()})
+	c := h.NewCrasher(e, en.Work+"/img")
+	c.WithMerge = true
+	c.MaxImages = 0
+	if e.Open(cfg) != "ok" {
+		c.Stop()
+		c.Flush(nil)
+		return
+	}
+	val := func(n int) int { id, _ := vs.New(n); return id }
+	for k := 1; k <= nkeys; k++ {
+		e.Put(k, val(20+r.Intn(60)))
+	}
+	// gates: park the merge after it released the lock, and again when it has written its marker
+	started, scanned := make(chan struct{}), make(chan struct{})
+	relStart, relDone := make(chan struct{}), make(chan struct{})
+	var once1, once2 sync.Once
+	orig := kv.VerifPoint
+	kv.VerifPoint = func(name string, arg uint32) {
+		switch name {
+		case "merge.started":
+			once1.Do(func() { close(started); <-relStart })
+		case "merge.done":
+			once2.Do(func() { close(scanned); <-relDone })
+		}
+	}
+	mergeDone := make(chan struct{})
+	go func() {
+		defer close(mergeDone)
+		e.DB.Merge()
+	}()
+	select {
+	case <-started:
+	case <-mergeDone:
+	}
+	// the batch: delete one key, overwrite another, then a record that forces an intermediate flush
+	e.NewBatch(false)
+	e.BDelete(1)
+	e.BPut(2, val(30))
+	e.BPut(3, val(int(cfg.Limit)+50)) // does not fit with what is staged: the staged piece is flushed first
+	close(relStart)
+	select {
+	case <-scanned:
+		c.MaxImages = 10
+		c.Snapshot("halfbatch.uncommitted")
+		c.MaxImages = 0
+		stats["halfbatch_images"]++
+	case <-mergeDone:
+	}
+	e.Commit()
+	close(relDone)
+	<-mergeDone
+	kv.VerifPoint = orig
+	c.MaxImages = 20
+	c.Snapshot("halfbatch.committed")
+	c.MaxImages = 0
+	if !e.Dead && e.DB != nil {
+		e.Close()
+	}
+	c.Stop()
+	obs := c.ExploreMerge(false, stats)
 	c.Flush(obs)
 }
